@@ -476,7 +476,7 @@ static std::vector<std::pair<size_t, size_t> > stack_shapes(size_t n, const std:
 	S.push_back(std::make_pair((size_t)1, (size_t)1));
 	S.push_back(std::make_pair((size_t)2, (size_t)8));
 	S.push_back(std::make_pair((size_t)3, (size_t)3));
-	if (n <= 8 || n == 64 || n == TMCG_MAX_CARDS)
+	if (n <= 4 || n == 64 || n == TMCG_MAX_CARDS)
 		S.push_back(std::make_pair((size_t)TMCG_MAX_PLAYERS, (size_t)TMCG_MAX_TYPEBITS));
 	S.push_back(std::make_pair((size_t)0, (size_t)0)); // mixed: card i has shape (i mod 32 + 1, i mod 10 + 1)
 	return S;
@@ -644,7 +644,9 @@ template<class SecT> static void fam_stacksecret_of(const std::string &enc, cons
 			for (size_t pk = 0; pk < perms.size(); pk++)
 				for (int pattern = 0; pattern <= 4; pattern++)
 				{
-					if ((big || perms.size() > 6 || shapes == "all") && pattern != (int)(pk % 5)) continue; // one pattern per permutation when there are many / large ones
+					// one pattern per permutation when there are many / large ones (quick tier: for every size above 8; the
+					// pattern rotates with the size so that every permutation kind meets every pattern)
+					if ((big || perms.size() > 6 || shapes == "all" || (!thorough && n > 8)) && pattern != (int)((pk + n) % 5)) continue;
 					TMCG_StackSecret<SecT> st;
 					for (size_t i = 0; i < n; i++)
 					{
